@@ -320,6 +320,8 @@ def r7(tree, rep):
 
 
 def run(tree, rep, tier):
+    from .. import ctxmgr
+    ctxmgr.check_with_blocks(tree, rep, "C04.R8", ["src/wormhole/cli/cmd_send.py", "src/wormhole/cli/cmd_receive.py", "src/wormhole/transit.py"])
     r7(tree, rep)
     r1_r3(tree, rep)
     r2(tree, rep)
